@@ -180,6 +180,10 @@ func runLoopTier(c *vh.Ctx) {
 	for i := 0; i < nr; i++ {
 		scs = append(scs, randomLoopScenario(r, i))
 	}
+	defer func() {
+		res.DistN("loop-ticks-compared-with-model", ticksCompared)
+		res.DistN("loop-callbacks-compared-with-model", callsCompared)
+	}()
 	for _, sc := range scs {
 		kind, what, lr := runLoopScenario(sc, c.Driver)
 		res.Dist("loop-scenarios")
